@@ -177,6 +177,17 @@ end scan
 def scanCountFloat (lo hi step : Float) : Nat :=
   (((hi - lo) / step).toInt64.toInt + 1).toNat
 
+/-- the number of scan values with the error paths of the code: `int(inf)` → `OverflowError`, `int(nan)` →
+`ValueError`, a negative count → `ValueError` of `numpy.linspace` (a count of 0 gives no scan value, which
+`scan` reports as the `TypeError` the code runs into) -/
+def scanCountFloatE (lo hi step : Float) : Except String Nat :=
+  let q := (hi - lo) / step
+  if q.isNaN then .error "ValueError:int(nan)"
+  else if q.isInf then .error "OverflowError:int(inf)"
+  else
+    let n := q.toInt64.toInt + 1
+    if n < 0 then .error "ValueError:negative-number-of-samples" else .ok n.toNat
+
 /-! ### the wrapper `Minimizer.minimize` -/
 
 /-- what the wrapper sees of one attempt of the implementation:
